@@ -684,6 +684,14 @@ def formatResults (k n : Nat) (rs : List ServerResult) : CheckSummary :=
     countCorrupt := (rs.map (fun r => r.corrupt.eraseDups.length)).sum,
     countIncompatible := (rs.map (fun r => r.incompatible.eraseDups.length)).sum }
 
+/-- `corruptshare_locators` / `incompatibleshare_locators` of `_format_results`: (server, sharenum) for every share a
+    server's result set lists as corrupt / incompatible, in result order -/
+def corruptLocators (rs : List ServerResult) : List (Nat × Nat) :=
+  rs.flatMap (fun r => r.corrupt.eraseDups.map (fun sh => (r.server, sh)))
+
+def incompatibleLocators (rs : List ServerResult) : List (Nat × Nat) :=
+  rs.flatMap (fun r => r.incompatible.eraseDups.map (fun sh => (r.server, sh)))
+
 /-! ## filenode.py `CiphertextFileNode._maybe_repair` -/
 
 /-- `if cr.is_healthy(): (no repair) else: (start the Repairer)`: a repair is attempted exactly when the check is
